@@ -226,6 +226,26 @@ def _simple_arg(e) -> bool:
     return False
 
 
+_PURE_CALLS = {"os.path.join", "os.path.dirname", "os.path.basename", "os.path.abspath", "os.path.normpath", "os.sep.join", "str", "len", "tuple", "os.fspath"}
+
+
+def _pure_arg(e, depth=0) -> bool:
+    """an expression without side effects whose repeated evaluation gives the same value: may be written out at every use of a parameter"""
+    if depth > 4:
+        return False
+    if _simple_arg(e):
+        return True
+    if isinstance(e, ast.Call) and not e.keywords and ast.unparse(e.func) in _PURE_CALLS:
+        return all(_pure_arg(a, depth + 1) for a in e.args)
+    if isinstance(e, ast.BinOp):
+        return _pure_arg(e.left, depth + 1) and _pure_arg(e.right, depth + 1)
+    if isinstance(e, ast.Subscript):
+        return _pure_arg(e.value, depth + 1) and _pure_arg(e.slice, depth + 1)
+    if isinstance(e, (ast.Tuple, ast.List)):
+        return all(_pure_arg(x, depth + 1) for x in e.elts)
+    return False
+
+
 def _stored_names(fn) -> Set[str]:
     out = set()
     for st in fn.body:
@@ -893,7 +913,7 @@ class ModuleInliner:
                             if isinstance(t, ast.Name) and t.id in bound:
                                 return node
                 for p, a in bound.items():
-                    if not _simple_arg(a) and uses.get(p, 0) != 1:
+                    if not _pure_arg(a) and uses.get(p, 0) != 1:
                         return node
                 # names bound inside the expression (comprehension targets) must not collide with argument names
                 inner = {t.id for n in ast.walk(e) if isinstance(n, ast.comprehension) for t in ast.walk(n.target) if isinstance(t, ast.Name)}
